@@ -476,33 +476,191 @@ type act struct {
 	N  int    `json:"n"`
 }
 
+// ---------------------------------------------------------------- values
+// The containers take interface{} values (the LRU facades: anything with Size()); the kind of value is
+// a dimension like the kind of key: comparable and uncomparable dynamic types, nil.  A value is made
+// from a value id and a kind; what a Get returns is decoded back (dynamic type -> kind, content ->
+// id).  The trace carries both in one number, id*16 + kind code, so the plain map of the spec also
+// says which KIND must come back.
+type vStruct struct{ ID int }
+type vDeep struct { // a struct that holds a slice: not comparable either
+	ID int
+	L  []int
+}
+
+const nMapKinds = 9
+
+func mkVal(kind, id int) (interface{}, int) {
+	switch kind {
+	case 1:
+		return id, id*16 + 1
+	case 2:
+		return fmt.Sprint(id), id*16 + 2
+	case 3:
+		return vStruct{id}, id*16 + 3
+	case 4:
+		x := id
+		return &x, id*16 + 4
+	case 5:
+		return []string{fmt.Sprint(id)}, id*16 + 5
+	case 6:
+		return map[string]int{"id": id}, id*16 + 6
+	case 7:
+		return func() int { return id }, id*16 + 7
+	case 8:
+		return nil, 8
+	}
+	return vDeep{id, []int{id}}, id*16 + 9
+}
+
+func decVal(x interface{}) int {
+	switch y := x.(type) {
+	case nil:
+		return 8
+	case int:
+		return y*16 + 1
+	case string:
+		var id int
+		if _, err := fmt.Sscan(y, &id); err != nil {
+			return -1
+		}
+		return id*16 + 2
+	case vStruct:
+		return y.ID*16 + 3
+	case *int:
+		if y == nil {
+			return -1
+		}
+		return *y*16 + 4
+	case []string:
+		var id int
+		if len(y) != 1 {
+			return -1
+		}
+		if _, err := fmt.Sscan(y[0], &id); err != nil {
+			return -1
+		}
+		return id*16 + 5
+	case map[string]int:
+		if len(y) != 1 {
+			return -1
+		}
+		return y["id"]*16 + 6
+	case func() int:
+		return y()*16 + 7
+	case vDeep:
+		if len(y.L) != 1 || y.L[0] != y.ID {
+			return -1
+		}
+		return y.ID*16 + 9
+	}
+	return -1 // something that was never stored
+}
+
+// values of the sized LRU: every kind of type that can carry a Size() method
+type sv struct{ id int }
+type svPtr struct{ id int }
+type svSlice []int
+type svMap map[string]int
+type svFunc func() int
+
+func (sv) Size() int      { return 1 }
+func (*svPtr) Size() int  { return 1 }
+func (svSlice) Size() int { return 1 }
+func (svMap) Size() int   { return 1 }
+func (svFunc) Size() int  { return 1 }
+
+const nLRUKinds = 5
+
+func mkLRUVal(kind, id int) (cache.Value, int) {
+	switch kind {
+	case 1:
+		return sv{id}, id*16 + 1
+	case 2:
+		return &svPtr{id}, id*16 + 2
+	case 3:
+		return svSlice{id}, id*16 + 3
+	case 4:
+		return svMap{"id": id}, id*16 + 4
+	}
+	return svFunc(func() int { return id }), id*16 + 5
+}
+
+func decLRUVal(x cache.Value) int {
+	switch y := x.(type) {
+	case sv:
+		return y.id*16 + 1
+	case *svPtr:
+		if y == nil {
+			return -1
+		}
+		return y.id*16 + 2
+	case svSlice:
+		if len(y) != 1 {
+			return -1
+		}
+		return y[0]*16 + 3
+	case svMap:
+		if len(y) != 1 {
+			return -1
+		}
+		return y["id"]*16 + 4
+	case svFunc:
+		return y()*16 + 5
+	}
+	return -1
+}
+
+// which kind the value with id v has in this history
+func (c conf) kindOf(v, nkinds int) int {
+	k := (v*c.vmul + c.voff) % nkinds
+	if k < 0 {
+		k += nkinds
+	}
+	return 1 + k
+}
+
+// store: set returns the number the trace carries for the stored value; get decodes what came back
 type store interface {
-	set(k interface{}, v int)
+	encOf(v int) int
+	set(k interface{}, v int) int
 	get(k interface{}, alt bool) (int, bool)
 	exist(k interface{}) bool
 	del(k interface{}) (existed bool, reports bool)
 }
 
-type mapStore struct{ m cache.MapFacade }
+type mapStore struct {
+	m cache.MapFacade
+	c conf
+}
 
-func (s mapStore) set(k interface{}, v int) { s.m.Set(k, v) }
+func (s mapStore) encOf(v int) int { _, e := mkVal(s.c.kindOf(v, nMapKinds), v); return e }
+func (s mapStore) set(k interface{}, v int) int {
+	x, enc := mkVal(s.c.kindOf(v, nMapKinds), v)
+	s.m.Set(k, x)
+	return enc
+}
 func (s mapStore) get(k interface{}, alt bool) (int, bool) {
 	v, ok := s.m.Get(k)
 	if !ok {
 		return 0, false
 	}
-	return v.(int), true
+	return decVal(v), true
 }
 func (s mapStore) exist(k interface{}) bool       { return s.m.Exist(k) }
 func (s mapStore) del(k interface{}) (bool, bool) { s.m.Delete(k); return false, false }
 
-type sv struct{ id int }
+type lruStore struct {
+	c  cache.LRUFacade
+	cf conf
+}
 
-func (sv) Size() int { return 1 }
-
-type lruStore struct{ c cache.LRUFacade }
-
-func (s lruStore) set(k interface{}, v int) { s.c.Set(k, sv{v}) }
+func (s lruStore) encOf(v int) int { _, e := mkLRUVal(s.cf.kindOf(v, nLRUKinds), v); return e }
+func (s lruStore) set(k interface{}, v int) int {
+	x, enc := mkLRUVal(s.cf.kindOf(v, nLRUKinds), v)
+	s.c.Set(k, x)
+	return enc
+}
 func (s lruStore) get(k interface{}, alt bool) (int, bool) {
 	var v cache.Value
 	var ok bool
@@ -514,14 +672,22 @@ func (s lruStore) get(k interface{}, alt bool) (int, bool) {
 	if !ok {
 		return 0, false
 	}
-	return v.(sv).id, true
+	return decLRUVal(v), true
 }
 func (s lruStore) exist(k interface{}) bool       { return s.c.Exist(k) }
 func (s lruStore) del(k interface{}) (bool, bool) { return s.c.Delete(k), true }
 
-type tinyStore struct{ c tiny.LRU }
+type tinyStore struct {
+	c  tiny.LRU
+	cf conf
+}
 
-func (s tinyStore) set(k interface{}, v int) { s.c.Set(k, v) }
+func (s tinyStore) encOf(v int) int { _, e := mkVal(s.cf.kindOf(v, nMapKinds), v); return e }
+func (s tinyStore) set(k interface{}, v int) int {
+	x, enc := mkVal(s.cf.kindOf(v, nMapKinds), v)
+	s.c.Set(k, x)
+	return enc
+}
 func (s tinyStore) get(k interface{}, alt bool) (int, bool) {
 	var v interface{}
 	var ok bool
@@ -533,7 +699,7 @@ func (s tinyStore) get(k interface{}, alt bool) (int, bool) {
 	if !ok {
 		return 0, false
 	}
-	return v.(int), true
+	return decVal(v), true
 }
 func (s tinyStore) exist(k interface{}) bool       { return s.c.Exist(k) }
 func (s tinyStore) del(k interface{}) (bool, bool) { return s.c.Delete(k), true }
@@ -549,6 +715,8 @@ type conf struct {
 	variant string
 	n       int   // shard count; 0 = no remap option at all (the default prime)
 	capa    int64 // LRU facades: total capacity
+	vmul    int   // kind of the value stored for value id v: kinds[(v*vmul + voff) % len(kinds)]
+	voff    int   //   vmul = 0: one kind throughout the history, 1: kinds mixed
 }
 
 func (c conf) shards() int {
@@ -589,7 +757,7 @@ func (c conf) room() int64 {
 
 func (c conf) reset(kind, src string, threads, scheme int) tr.E {
 	return tr.E{"ev": "reset", "kind": kind, "threads": threads, "variant": c.variant, "shards": c.shards(),
-		"numbs": c.shards(), "defaultopt": c.n == 0, "cap": c.capTag(), "scheme": scheme, "src": src}
+		"numbs": c.shards(), "defaultopt": c.n == 0, "cap": c.capTag(), "scheme": scheme, "src": src, "vmul": c.vmul, "voff": c.voff}
 }
 
 // newStoreC builds the container; a panic in a constructor is an observation (nil store + note).
@@ -605,19 +773,19 @@ func newStoreC(c conf) (s store, note string) {
 	}
 	switch c.variant {
 	case "single":
-		return mapStore{cache.NewSingleMap()}, ""
+		return mapStore{cache.NewSingleMap(), c}, ""
 	case "wide":
-		return mapStore{cache.NewWideMap(opts...)}, ""
+		return mapStore{cache.NewWideMap(opts...), c}, ""
 	case "widex":
-		return mapStore{cache.NewWideXHashMap(opts...)}, ""
+		return mapStore{cache.NewWideXHashMap(opts...), c}, ""
 	case "lru":
-		return lruStore{cache.NeWideLRUCache(c.capa, opts...)}, ""
+		return lruStore{cache.NeWideLRUCache(c.capa, opts...), c}, ""
 	case "lrux":
-		return lruStore{cache.NewWideXHashLRUCache(c.capa, opts...)}, ""
+		return lruStore{cache.NewWideXHashLRUCache(c.capa, opts...), c}, ""
 	case "tiny":
-		return tinyStore{tiny.NeWideLRU(c.capa, opts...)}, ""
+		return tinyStore{tiny.NeWideLRU(c.capa, opts...), c}, ""
 	case "tinyx":
-		return tinyStore{tiny.NewWideXHashLRU(c.capa, opts...)}, ""
+		return tinyStore{tiny.NewWideXHashLRU(c.capa, opts...), c}, ""
 	}
 	tr.Fatal("variant %q", c.variant)
 	return nil, ""
@@ -645,7 +813,7 @@ func call(s store, op string, k key, v int, alt bool) (rec tr.E, r tr.E) {
 	}()
 	switch op {
 	case "set":
-		a["v"] = v
+		a["v"] = s.encOf(v)
 		s.set(k.v, v)
 		return a, tr.E{"ok": true, "v": 0}
 	case "get":
@@ -809,7 +977,7 @@ func runRaces(w *tr.W, rng *rand.Rand, rounds, keep int) (int, int) {
 		if r%4 < 2 { // the maps proper get half of all rounds
 			variant = wide[r%2]
 		}
-		c := conf{variant, 1 + (r/2)%3, farCap}
+		c := conf{variant: variant, n: 1 + (r/2)%3, capa: farCap, vmul: (r / 6) % 2, voff: rng.Intn(nMapKinds * nLRUKinds)}
 		threads := 2 + rng.Intn(3)
 		scheme := schemes[rng.Intn(len(schemes))]
 		nkeys := 2 + rng.Intn(3)
@@ -885,7 +1053,7 @@ func runRaces(w *tr.W, rng *rand.Rand, rounds, keep int) (int, int) {
 				for i, st := range progs[t] {
 					a := tr.E{"op": st.op, "k": st.k.mapRec()}
 					if st.op == "set" {
-						a["v"] = st.v
+						a["v"] = s.encOf(st.v)
 					}
 					if st.op == "del" && variant != "wide" && variant != "widex" {
 						a["op"] = "delr" // the LRU facades report whether they removed
@@ -1062,7 +1230,7 @@ func runPressure(w *tr.W, rng *rand.Rand, rounds int) {
 		variant := []string{"lru", "lrux", "tiny", "tinyx"}[r%4]
 		n := 1 + (r/4)%3
 		capa := rng.Intn(3*n + 3)
-		c := conf{variant, n, int64(capa)}
+		c := conf{variant: variant, n: n, capa: int64(capa)}
 		s, cnote := newStoreC(c)
 		sized := variant == "lru" || variant == "lrux"
 		pcap := capa/n + 1
@@ -1264,7 +1432,7 @@ func main() {
 			base := filepath.Base(f)
 			third := []string{"single", "lru", "lrux", "tiny", "tinyx"}[i%5]
 			for j, v := range []string{"wide", "widex", third} {
-				c := conf{v, n, 0}
+				c := conf{variant: v, n: n, vmul: i % 2, voff: i/2 + j}
 				c.capa = capOf(i, c.shards())
 				runPlan(mw, "plan:"+base, c, (i+3*j)%nSchemes, p[1:])
 			}
@@ -1279,7 +1447,7 @@ func main() {
 		if i%11 == 5 {
 			n = 0
 		}
-		c := conf{v, n, 0}
+		c := conf{variant: v, n: n, vmul: (i / 7) % 2, voff: rng.Intn(nMapKinds * nLRUKinds)}
 		c.capa = capOf(i/7, c.shards())
 		runRandom(mw, rng, c, 10+rng.Intn(*maxops))
 	}
@@ -1287,7 +1455,7 @@ func main() {
 	// around the shard count, top of int64
 	for _, v := range []string{"lru", "lrux", "tiny", "tinyx", "wide", "widex"} {
 		for _, n := range []int{1, 2, 0} {
-			c := conf{v, n, 0}
+			c := conf{variant: v, n: n, vmul: 1, voff: rng.Intn(nMapKinds * nLRUKinds)}
 			N := int64(c.shards())
 			for _, capa := range []int64{0, 1, N - 1, N, math.MaxInt64 - 1, math.MaxInt64} {
 				c.capa = capa
